@@ -240,6 +240,18 @@ impl CommandProcessor<MonSink, SinkErr> for RecProc {
                 Arg::Value(v) => RecArg::Value(v.as_bytes().to_vec()),
             });
         }
+        // ill-formed text handed out (C02's business, judged on this record by the monitors): do not run the derived
+        // parser / Debug formatting on it -- core's str formatting may panic on it and hide what happened
+        let wellformed = core::str::from_utf8(&rec.name).is_ok()
+            && rec.args.iter().all(|a| match a {
+                RecArg::Long(b) | RecArg::Value(b) => core::str::from_utf8(b).is_ok(),
+                RecArg::Short(u) => char::from_u32(*u).is_some(),
+                RecArg::DoubleDash => true,
+            });
+        if !wellformed {
+            self.log.push(rec);
+            return Ok(());
+        }
         if let Some(parse) = self.parse {
             match parse(raw.clone()) {
                 Ok(dbg) => rec.parsed = Some(Ok(dbg)),
